@@ -71,6 +71,8 @@ package pubsub
 //@ func (*PubSub).announce
 //@   property C05 C19
 //@   noframe
+//@   modifies announced
+//@   ghost-effect last-announcement: announced[topic] == sub && (forall t string :: t != topic ==> announced[t] == old(announced[t]))
 //@   loop 1 invariant exact: forall pid string :: attempts(pid) - old(attempts(pid)) == ite($visited[pid], 1, 0)
 //@   loop 1 invariant visited-peers: forall pid string :: $visited[pid] ==> pid in old(p.peers)
 //@   at call Push assert announcement: $arg0 == p.peers[pid] && $arg1 == lastret(rpcWithSubs) && !$arg2
@@ -79,3 +81,71 @@ package pubsub
 //@   ensures every-peer-once: forall pid string :: attempts(pid) - old(attempts(pid)) == ite(pid in old(p.peers), 1, 0)
 //@   ensures single-subopt: len(lastarg(rpcWithSubs, 0)) == 1 && lastarg(rpcWithSubs, 0)[0] != nil &&
 //@        deref(lastarg(rpcWithSubs, 0)[0].Topicid) == topic && deref(lastarg(rpcWithSubs, 0)[0].Subscribe) == sub
+
+// ---- C05: interest announcements follow the subscription state ----
+//
+// announced[t]: the last announcement made for t (definitional ghost updated by announce);
+// joined[t]: whether the router was last told Join (true) or Leave (false) for t.
+//@ ghost var announced mmap[string]bool
+//@ ghost var joined mmap[string]bool
+
+//@ iface PubSubRouter.Join
+//@   modifies joined
+//@   ghost-effect joined: joined[topic] && (forall t string :: t != topic ==> joined[t] == old(joined[t]))
+//@ iface PubSubRouter.Leave
+//@   modifies joined
+//@   ghost-effect left: !joined[topic] && (forall t string :: t != topic ==> joined[t] == old(joined[t]))
+
+//@ spec fn fanoutOnlyT(p *PubSub, t string) bool = t in p.myTopics && p.myTopics[t] != nil && p.myTopics[t].fanoutOnly
+//@ spec fn interested(p *PubSub, t string) bool = (len(p.mySubs[t]) > 0 && !fanoutOnlyT(p, t)) || p.myRelays[t] > 0
+
+// The bookkeeping invariant of the event loop: announcements and router membership equal the
+// true interest for every topic; present entries are non-empty; relays never exist on
+// fanout-only topics (Topic.Relay refuses them); subscriptions imply a registered topic handle.
+//@ spec fn invSub(p *PubSub) bool = p.mySubs != nil && p.myRelays != nil && p.myTopics != nil &&
+//@      (forall t string :: announced[t] == interested(p, t) && joined[t] == interested(p, t)) &&
+//@      (forall t string :: t in p.mySubs ==> p.mySubs[t] != nil && allocated(p.mySubs[t]) && len(p.mySubs[t]) > 0 && t in p.myTopics && p.myTopics[t] != nil) &&
+//@      (forall t1 string, t2 string :: t1 in p.mySubs && t2 in p.mySubs && t1 != t2 ==> p.mySubs[t1] != p.mySubs[t2]) &&
+//@      (forall t string :: t in p.myRelays ==> p.myRelays[t] > 0) &&
+//@      (forall t string :: fanoutOnlyT(p, t) ==> p.myRelays[t] == 0)
+
+//@ func (*PubSub).handleAddSubscription
+//@   property C05
+//@   requires inv: invSub(p) && req != nil && req.sub != nil && req.sub.topic in p.myTopics && p.myTopics[req.sub.topic] != nil
+//@   requires new: !has(p.mySubs, req.sub.topic, req.sub)
+//@   noframe
+//@   ensures inv: invSub(p)
+//@   ensures added: has(p.mySubs, old(req.sub.topic), old(req.sub))
+//@   ensures announce-on-first-only: calls((*PubSub).announce) - old(calls((*PubSub).announce)) ==
+//@        ite(!old(interested(p, req.sub.topic)) && !old(fanoutOnlyT(p, req.sub.topic)), 1, 0)
+//@   ensures join-with-announce: calls(PubSubRouter.Join) - old(calls(PubSubRouter.Join)) == calls((*PubSub).announce) - old(calls((*PubSub).announce))
+
+//@ func (*PubSub).handleRemoveSubscription
+//@   property C05
+//@   requires inv: invSub(p) && sub != nil
+//@   noframe
+//@   ensures inv: invSub(p)
+//@   ensures removed: !has(p.mySubs, old(sub.topic), sub)
+//@   ensures cancelled: old(sub.topic in p.mySubs) ==> sub.err == ErrSubscriptionCancelled &&
+//@        calls((*Subscription).close) == old(calls((*Subscription).close)) + 1 && lastarg((*Subscription).close, 0) == sub
+//@   ensures unknown-topic-noop: !old(sub.topic in p.mySubs) ==> calls((*PubSub).announce) == old(calls((*PubSub).announce)) && calls((*Subscription).close) == old(calls((*Subscription).close))
+//@   ensures withdraw-on-last-only: calls((*PubSub).announce) - old(calls((*PubSub).announce)) == ite(old(interested(p, sub.topic)) && !interested(p, old(sub.topic)), 1, 0)
+//@   ensures leave-with-withdraw: calls(PubSubRouter.Leave) - old(calls(PubSubRouter.Leave)) == calls((*PubSub).announce) - old(calls((*PubSub).announce))
+
+//@ func (*PubSub).handleAddRelay
+//@   property C05
+//@   requires inv: invSub(p) && req != nil && !fanoutOnlyT(p, req.topic)
+//@   noframe
+//@   ensures inv: invSub(p)
+//@   ensures counted: p.myRelays[old(req.topic)] == old(p.myRelays[req.topic]) + 1
+//@   ensures announce-on-first-only: calls((*PubSub).announce) - old(calls((*PubSub).announce)) == ite(!old(interested(p, req.topic)), 1, 0)
+//@   ensures join-with-announce: calls(PubSubRouter.Join) - old(calls(PubSubRouter.Join)) == calls((*PubSub).announce) - old(calls((*PubSub).announce))
+
+//@ func (*PubSub).handleRemoveRelay
+//@   property C05
+//@   requires inv: invSub(p)
+//@   noframe
+//@   ensures inv: invSub(p)
+//@   ensures counted: p.myRelays[topic] == ite(old(p.myRelays[topic]) > 0, old(p.myRelays[topic]) - 1, 0)
+//@   ensures withdraw-on-last-only: calls((*PubSub).announce) - old(calls((*PubSub).announce)) == ite(old(interested(p, topic)) && !interested(p, topic), 1, 0)
+//@   ensures leave-with-withdraw: calls(PubSubRouter.Leave) - old(calls(PubSubRouter.Leave)) == calls((*PubSub).announce) - old(calls((*PubSub).announce))
